@@ -661,3 +661,97 @@ func elemField(ip *idPool, v ssa.Value) *ssa.FieldAddr {
 	}
 	return fa
 }
+
+// ruleNoLostUpdateOnCopy implements C06-R10: an interval copied out of the free list is not modified in the copy.
+func (c *Ctx) ruleNoLostUpdateOnCopy(id string) {
+	ru := c.R.Rule(id, "an interval is modified in the free list itself, never in a copy of it: a local struct value loaded from an element of the list whose fields are then assigned is a lost update unless the value is stored back (last := m.intervals[i]; last.to++ changes nothing — the identifier returned is never free again)", "E3 local copies of list elements with field stores and no write-back", 1)
+	ip := c.idPool(ru)
+	if ip == nil {
+		return
+	}
+	n, bad := 0, ""
+	for _, f := range c.poolMethods(ip) {
+		c.R.Fn(c.fname(f))
+		for _, b := range f.Blocks {
+			for _, in := range b.Instrs {
+				al, ok := in.(*ssa.Alloc)
+				if !ok || al.Heap || al.Referrers() == nil {
+					continue
+				}
+				if _, isStruct := derefT(al.Type()).Underlying().(*types.Struct); !isStruct {
+					continue
+				}
+				fromList, mutated, writtenBack := false, false, false
+				var mutAt ssa.Instruction
+				var muts, backs []ssa.Instruction
+				for _, r := range *al.Referrers() {
+					switch x := r.(type) {
+					case *ssa.Store:
+						if x.Addr == ssa.Value(al) {
+							if ld, ok := x.Val.(*ssa.UnOp); ok && ld.Op == token.MUL {
+								if ia, ok := ld.X.(*ssa.IndexAddr); ok && ip.isListLoad(ia.X) {
+									fromList = true
+								}
+							}
+						}
+					case *ssa.FieldAddr:
+						if x.Referrers() != nil {
+							for _, rr := range *x.Referrers() {
+								if st, ok := rr.(*ssa.Store); ok && st.Addr == ssa.Value(x) {
+									mutated, mutAt = true, st
+									muts = append(muts, st)
+								}
+							}
+						}
+					case *ssa.UnOp:
+						// the whole value read again: stored back into the list?
+						if x.Referrers() != nil {
+							for _, rr := range *x.Referrers() {
+								if st, ok := rr.(*ssa.Store); ok && st.Val == ssa.Value(x) {
+									if ia, ok := st.Addr.(*ssa.IndexAddr); ok && ip.isListLoad(ia.X) {
+										writtenBack = true
+										backs = append(backs, st)
+									}
+								}
+								if cv, ok := rr.(*ssa.Call); ok && core.CallOf(cv).Builtin() == "append" {
+									writtenBack = true
+									backs = append(backs, cv)
+								}
+								if st, ok := rr.(*ssa.Store); ok {
+									if _, isIdx := st.Addr.(*ssa.IndexAddr); isIdx {
+										writtenBack = true // element of a literal that is appended / assigned
+										backs = append(backs, st)
+									}
+								}
+							}
+						}
+					}
+				}
+				if !fromList {
+					continue
+				}
+				n++
+				// every modification of the copy must be followed, on its way out, by a write-back
+				for _, m := range muts {
+					followed := false
+					for _, w := range backs {
+						if reachesInstr(m, w) {
+							followed = true
+						}
+					}
+					if !followed {
+						mutated, writtenBack, mutAt = true, false, m
+					}
+				}
+				if mutated && !writtenBack {
+					bad = "a copy of a free-list element is modified at " + c.whereI(mutAt) + " and not written back afterwards: the change is lost"
+				}
+			}
+		}
+	}
+	if bad != "" {
+		ru.Fail("copies of free-list elements in the pool", "-", bad)
+	} else {
+		ru.OK("copies of free-list elements in the pool", "-", fmt.Sprintf("%d local copy(ies) of list elements, none modified without write-back", n))
+	}
+}
